@@ -161,6 +161,7 @@ sys.exit(1 if bad else 0)
 
 
 TITLES = {'_bounds_merge': 'reader: bounds across top-level directories == (min first, max last) over the directories that hold data',
+          '_read_all_dirs': 'reader: every top-level directory contributes to a read, in any directory order, also when the blocks found so far already reach both ends of the request (sessions interleaved over directories)',
           '_read_glue': 'reader: one read accumulates the blocks of every top-level directory into one mapping and merges them',
           '_combine3': 'reader: blocks from different directories merge exactly when adjacent, in ascending order'}
 
